@@ -87,7 +87,18 @@ def c18(ctx, res):
                         "behavioural probes: one fixed input set per operation class; the probe of a class is checked to be influenced by every register the specification lists for it"]
 
 
+def c01(ctx, res):
+    t = "quick" if ctx.quick else "thorough"
+    fams = ["names", "attrs", "attrs2", "texts"] + ([] if ctx.quick else ["texts2"])
+    for fam in fams:
+        ctx.gen_replay(res, "dec", "MC_C01.tla", "MC_C01_%s_%s.cfg" % (fam, t), procs=16)
+    res.assumptions += ["encoding/xml as tokenizer (namespace prefixes, entity and CDATA decoding)",
+                        "domain notes of DESIGN C01: attribute names distinct after key folding, attribute prefix distinct from the key prefix, under keep-spaces inter-element white space contains no blanks, at most one non-blank text run per element",
+                        "cast uses the default flags over the texts {7, 1, true}; the full cast chain is C14"]
+
+
 PROPS = {
+    "C01": c01,
     "C18": c18,
     "C13": c13,
     "C10": c10,
